@@ -142,6 +142,8 @@ type WorldCfg struct {
 	NoRF       bool      `json:"noRF,omitempty"`
 	NoABMF     bool      `json:"noABMF,omitempty"`
 	StepCap    int       `json:"stepCap,omitempty"`
+	RfPort     int       `json:"rfPort,omitempty"`   // Diameter ports (real-stack runs use fresh ones per world)
+	AbmfPort   int       `json:"abmfPort,omitempty"`
 }
 
 type stubApp struct{ p *processor.Processor }
@@ -167,6 +169,13 @@ type World struct {
 
 func baseConfig(cfg WorldCfg) *factory.Config {
 	tls := &factory.Tls{Pem: certPem, Key: certKey}
+	rfPort, abmfPort := 3868, 3869
+	if cfg.RfPort > 0 {
+		rfPort = cfg.RfPort
+	}
+	if cfg.AbmfPort > 0 {
+		abmfPort = cfg.AbmfPort
+	}
 	svcs := cfg.Services
 	if svcs == nil && !cfg.NoServices {
 		svcs = []string{"nchf-convergedcharging", "nchf-offlineonlycharging", "nchf-spendinglimitcontrol"}
@@ -179,8 +188,8 @@ func baseConfig(cfg WorldCfg) *factory.Config {
 			NrfUri:              "http://127.0.0.10:8000",
 			NrfCertPem:          cfg.NrfCert,
 			Mongodb:             &factory.Mongodb{Name: "free5gc", Url: "mongodb://localhost:27017"},
-			RfDiameter:          &factory.Diameter{Protocol: "tcp", HostIPv4: "127.0.0.1", Port: 3868, Tls: tls},
-			AbmfDiameter:        &factory.Diameter{Protocol: "tcp", HostIPv4: "127.0.0.1", Port: 3869, Tls: tls},
+			RfDiameter:          &factory.Diameter{Protocol: "tcp", HostIPv4: "127.0.0.1", Port: rfPort, Tls: tls},
+			AbmfDiameter:        &factory.Diameter{Protocol: "tcp", HostIPv4: "127.0.0.1", Port: abmfPort, Tls: tls},
 			Cgf:                 &factory.Cgf{HostIPv4: "127.0.0.1", Port: 2121, ListenPort: 2122},
 			VolumeLimit:         cfg.VolLimit,
 			VolumeLimitPDU:      cfg.VolLimPDU,
